@@ -1157,3 +1157,40 @@ Proof.
     simpl. rewrite !look_put_dir. apply not_prefix in Hp. rewrite !eqb_if by (intro; subst; tauto). auto.
 Qed.
 End Stale.
+
+(* ------------------------------------------------------------------ the statements as used in Props/C19.v *)
+Definition tracker_inputs_untouched := conj tracker_inputs_untouched_some tracker_inputs_untouched_none.
+
+(* decidable forms of the hypotheses *)
+Lemma wfb_wf : forall f, wfb f = true -> wf f.
+Proof.
+  intros f H p a Hn. unfold wfb in H. rewrite forallb_forall in H.
+  destruct (lookup f (p ++ [a])) as [e|] eqn:E; [|apply look_absent in E; contradiction].
+  apply lookup_Some_In in E. specialize (H _ E). simpl in H.
+  destruct (p ++ [a]) as [|x r] eqn:Ep; [destruct p; discriminate|].
+  rewrite <- Ep, parent_child in H. apply n_is_dir_true. assumption.
+Qed.
+
+Lemma node_eqb_eq : forall a b, node_eqb a b = true -> a = b.
+Proof. intros [| |x] [| |y] H; simpl in H; try discriminate; try reflexivity. apply Z.eqb_eq in H. congruence. Qed.
+
+Lemma agree_b_spec : forall d T f f', agree_b d T f f' = true ->
+  forall q, stale d T q = false -> look f q = look f' q.
+Proof.
+  intros d T f f' H q Hq. unfold agree_b in H. rewrite forallb_forall in H.
+  assert (X : forall e g, In (q, e) g -> In (q, e) (f ++ f') -> look f q = look f' q).
+  { intros e g _ Hi. specialize (H _ Hi). simpl in H. rewrite Hq in H. apply node_eqb_eq. assumption. }
+  destruct (lookup f q) as [e|] eqn:E.
+  - apply lookup_Some_In in E. apply (X e f E). apply in_or_app. auto.
+  - destruct (lookup f' q) as [e'|] eqn:E'.
+    + apply lookup_Some_In in E'. apply (X e' f' E'). apply in_or_app. auto.
+    + apply look_absent in E. apply look_absent in E'. congruence.
+Qed.
+
+Lemma ops_ns_b_spec : forall d T mid, ops_ns_b d T mid = true ->
+  forall o p, In o mid -> In p (op_paths o) -> stale d T p = false.
+Proof.
+  intros d T mid H o p Ho Hp. unfold ops_ns_b in H. rewrite forallb_forall in H.
+  specialize (H o Ho). rewrite forallb_forall in H. specialize (H p Hp).
+  apply negb_true_iff in H. assumption.
+Qed.
